@@ -143,4 +143,15 @@ except TypeError:
 else:
     assert False, "TypeError not raised"
 
+doc="method through the class"
+a = [1]
+list.append(a, 2)
+assert a == [1, 2]
+assert str.upper("a") == "A"
+assert dict.get({"k": 1}, "k") == 1
+assert list.append == list.append
+assertRaises(TypeError, lambda: list.append())
+assertRaises(TypeError, lambda: list.append(1, 2))
+assertRaises(TypeError, lambda: str.upper(1))
+
 doc="finished"
